@@ -654,6 +654,9 @@ class Inliner:
             # L.extend(list_helper(args)): `return [a, b]` becomes L.append(a); L.append(b), `return X` L.extend(X)
             call, form = s.value.args[0], "extendlist"
             extend_to = s.value.func.value.id
+        elif isinstance(s, ast.For) and not s.orelse and isinstance(s.iter, ast.Call) and self.target(s.iter, scope) is not None and _is_generator(self.target(s.iter, scope)[1]):
+            # for x in generator_helper(args): BODY   ->   the helper's body with its one `yield E` replaced by `x = E; BODY`
+            call, form = s.iter, "genfor"
         elif isinstance(s, ast.Expr) and isinstance(s.value, ast.Call):
             call, form = s.value, "stmt"
         elif isinstance(s, ast.Expr) and isinstance(s.value, ast.YieldFrom) and isinstance(s.value.value, ast.Call):
@@ -680,7 +683,7 @@ class Inliner:
             if any(self.target(c, q.split(".")[:-1]) and self.target(c, q.split(".")[:-1])[1] is h for c in ast.walk(h) if isinstance(c, ast.Call)):
                 raise NotInlinable("recursive helper")
             gen = _is_generator(h)
-            if gen != (form in ("yieldfrom", "extend")):
+            if gen != (form in ("yieldfrom", "extend", "genfor")):
                 raise NotInlinable("generator helper not used through yield from" if gen else "yield from a non-generator")
             nested_in_caller = any(n is h for n in ast.walk(caller))
             subst, rename, prelude, shadowed = self.bind(h, call, recv, caller, tgt_name)
@@ -717,6 +720,65 @@ class Inliner:
                 if any(isinstance(n, (ast.Yield, ast.YieldFrom)) for x in b2 for n in _walk_no_defs(x)):
                     raise NotInlinable("a yield of the helper is used as an expression")
                 new = prelude + b2
+            elif form == "genfor":
+                ys = [n for x in body for n in _walk_no_defs(x) if isinstance(n, (ast.Yield, ast.YieldFrom))]
+                yst = [n for x in body for n in _walk_no_defs(x) if isinstance(n, ast.Expr) and isinstance(n.value, ast.Yield)]
+                if len(ys) != 1 or len(yst) != 1 or yst[0].value is not ys[0]:
+                    raise NotInlinable("generator helper iterated by a for loop does not have exactly one `yield <value>` statement")
+                if any(isinstance(n, (ast.Return, ast.Try, ast.With, ast.AsyncWith)) for x in body for n in _walk_no_defs(x)):
+                    raise NotInlinable("generator helper iterated by a for loop has return / try / with (closing it early would matter)")
+
+                def own_level_jumps(stmts) -> bool:
+                    for st_ in stmts:
+                        if isinstance(st_, (ast.Break, ast.Continue)):
+                            return True
+                        if isinstance(st_, (ast.For, ast.While, ast.AsyncFor)):
+                            if own_level_jumps(st_.orelse):
+                                return True
+                            continue
+                        for fld_ in ("body", "orelse", "finalbody"):
+                            if own_level_jumps(getattr(st_, fld_, []) or []):
+                                return True
+                        if isinstance(st_, ast.Try) and any(own_level_jumps(h_.body) for h_ in st_.handlers):
+                            return True
+                    return False
+                if own_level_jumps(s.body):
+                    # break / continue of the consumer: the same only when the helper is one loop whose body ends with the yield
+                    if not (len(body) == 1 and isinstance(body[0], (ast.For, ast.While)) and not body[0].orelse and body[0].body and body[0].body[-1] is yst[0]):
+                        raise NotInlinable("the consuming loop uses break / continue and the generator helper is not a single loop ending in its yield")
+                tnames = {n.id for n in ast.walk(s.target) if isinstance(n, ast.Name)}
+                if tnames & {n.id for x in body for n in ast.walk(x) if isinstance(n, ast.Name)}:
+                    raise NotInlinable("the loop target's name is used inside the generator helper")
+
+                # `yield y` of a helper local into `for t in ...` whose t lives only inside the loop: y simply is t
+                yv = yst[0].value.value
+                fuse = None
+                if isinstance(yv, ast.Name) and isinstance(s.target, ast.Name) and yv.id in set(rename.values()):
+                    inside = {id(n) for n in ast.walk(s)}
+                    if all(id(n) in inside for n in ast.walk(caller) if isinstance(n, ast.Name) and n.id == s.target.id):
+                        fuse = (yv.id, s.target.id)
+                if fuse is not None:
+                    for x in body:
+                        for n in ast.walk(x):
+                            if isinstance(n, ast.Name) and n.id == fuse[0]:
+                                n.id = fuse[1]
+
+                class G(ast.NodeTransformer):
+                    def visit_Expr(self, n: ast.Expr):
+                        if n is yst[0]:
+                            if fuse is not None:
+                                return list(s.body)
+                            val = n.value.value if n.value.value is not None else ast.Constant(value=None)
+                            tgt_ = copy.deepcopy(s.target)
+                            return [ast.copy_location(ast.Assign(targets=[tgt_], value=val, lineno=n.lineno), n)] + list(s.body)
+                        return n
+
+                    def visit_FunctionDef(self, n):
+                        return n
+
+                    visit_AsyncFunctionDef = visit_Lambda = visit_FunctionDef
+                new = prelude + [G().visit(x) for x in body]
+                new = [y for x in new for y in (x if isinstance(x, list) else [x])]
             elif form == "extendlist":
                 if extend_to in _assigned_names(h) or any(isinstance(n, ast.Name) and n.id == extend_to for n in ast.walk(h)):
                     raise NotInlinable("the helper uses the name of the list it is extended into")
@@ -807,7 +869,7 @@ class Inliner:
         while True:
             if isinstance(node, ast.Call):
                 t = self.target(node, scope)
-                if t is not None and node is not root and not _is_generator(t[1]) and _expr_of(t[1]) is None:
+                if t is not None and (node is not root or isinstance(s, ast.For)) and not _is_generator(t[1]) and _expr_of(t[1]) is None:
                     found = node
                     break
                 if not _pure_arg(node.func):
@@ -849,14 +911,14 @@ class Inliner:
                 node = node.value
                 continue
             return None
-        if found is None or not path:
+        if found is None or (not path and not (isinstance(s, ast.For) and found is root)):
             return None
         names = _all_names(caller)
         k = 1
         while f"_inl_res{k}" in names:
             k += 1
         tmp = f"_inl_res{k}"
-        parent, f2, idx = path[-1]
+        parent, f2, idx = path[-1] if path else (s, "iter", None)     # `for x in helper(a):` -- the iterable is evaluated once, first
         repl = ast.copy_location(ast.Name(id=tmp, ctx=ast.Load()), found)
         if idx is None:
             setattr(parent, f2, repl)
